@@ -409,6 +409,17 @@ fn judge(c: &OutageCase, r: &Result_, reference: &Result_) -> Vec<(String, Strin
             format!("{}: a call to the node failed and it is still away, yet bitcoind is flagged reachable", c.name),
         ));
     }
+    // the tower declares the node back (and resumes, and reopens the API) only when the node really answers: a
+    // reachability check that failed (here: the node is warming up) must not be followed by anything but another check
+    for w in r.rpc_log.windows(2) {
+        if w[0].starts_with("getblockcount:") && w[0].contains("warming-up") && !w[1].starts_with("getblockcount:") && w[1].contains("warming-up") {
+            v.push((
+                format!("resumed-before-the-node-was-back:{path}"),
+                format!("{}: the carrier's own check was answered 'warming up', yet the tower went on ({}) as if bitcoind were back; rpcs {:?}", c.name, w[1], r.rpc_log),
+            ));
+            break;
+        }
+    }
     if let Some((flag, answer)) = &r.serves_again {
         if !*flag || answer == "Unavailable" {
             v.push((
@@ -613,10 +624,11 @@ pub fn c12(tier: Tier) -> i32 {
                 cases.push(c);
             }
             // the node has been restarted since the last call and is warming up (error -28) for that long
-            for k in ks.iter() {
+            // (at least two failed checks on the block path: one that is answered 'warming up' must be followed by another)
+            for k in ks.iter().map(|k| k + 1) {
                 let mut c = probe.clone();
                 c.rpc_index = Some(r);
-                c.k = *k;
+                c.k = k;
                 c.warmup = true;
                 cases.push(c);
             }
